@@ -82,6 +82,40 @@ def impl_main(payload):
             out["samples"].append(dict(seed=s, kind=kind, size=n, islands=len(islands), trajectory=traj))
         if out["viol"]:
             break
+    # the hall-of-fame clause on direct update histories: NaN anywhere (first included), full halls, ties, capacity 1-3,
+    # populations that contain a new best together with NaN members (the monitored evolutions reach these too rarely)
+    class P:
+        def __init__(self, f):
+            self.fitness, self.fit_set = f, True
+    hst = dict(histories=0, updates=0, nan_first=0, full_then_better=0)
+    for h in range(payload.get("hof_histories", 0)):
+        if out["viol"]:
+            break
+        cap = rng.choice([1, 2, 3])
+        hof = HallOfFame(cap)
+        offered, hist = None, []
+        for u in range(rng.randint(1, 6)):
+            pop = [P(float("nan") if rng.random() < 0.3 else float(rng.randint(0, 9))) for _ in range(rng.randint(1, 6))]
+            if rng.random() < 0.4:
+                pop[0].fitness = float("nan")
+            hist.append([None if math.isnan(p.fitness) else p.fitness for p in pop])
+            nn = [p.fitness for p in pop if not math.isnan(p.fitness)]
+            hst["nan_first"] += math.isnan(pop[0].fitness) and bool(nn)
+            hst["full_then_better"] += len(hof) == cap and bool(nn) and offered is not None and min(nn) < offered
+            try:
+                hof.update(pop)
+            except Exception as e:  # noqa
+                out["viol"].append("HallOfFame(%d).update raised %r on history %r" % (cap, e, hist))
+                break
+            hst["updates"] += 1
+            if nn:
+                offered = min(nn) if offered is None else min(offered, min(nn))
+            if offered is not None and (len(hof) == 0 or not (hof[0].fitness <= offered)):
+                out["viol"].append("HallOfFame(%d) after the update history %r: best entry %r is worse than the best individual %r "
+                                   "of a population it was updated with" % (cap, hist, hof[0].fitness if len(hof) else None, offered))
+                break
+        hst["histories"] += 1
+    out["hof_histories"] = hst
     # covering clause on the C08 selection cases (age-fitness and crowding with target = half)
     cres = c08.impl_main(dict(cases=payload["cases"], seed=payload["seed"]))
     return dict(mon=out, c08=cres["results"])
@@ -96,7 +130,7 @@ def check(rep, proof):
         if c["kind"] in (0, 2):
             cases.append(c)
     rc, res, out, wall = vlib.run_impl("c09", dict(cases=cases, seed=rep.seed, runs=40 if rep.tier == "quick" else 1500,
-                                                   gens=12), timeout=3400)
+                                                   gens=12, hof_histories=1500 if rep.tier == "quick" else 40000), timeout=3400)
     if res is None:
         rep.violation("implementation harness crashed", dict(relation="monitor_C09", log=out[-3000:]), has_input=False)
         return
@@ -134,10 +168,13 @@ def check(rep, proof):
              "directly for the covering clause (every dropped non-NaN fitness is matched by a kept one that is no larger); (ii) "
              "monitor: real seeded evolutions (AgeFitnessEA with selection sizes 2-5, GeneralizedCrowdingEA with deterministic "
              "crowding; islands and serial archipelagos of 1-5 islands; a fitness function that returns NaN for some genomes; ties) "
-             "- best non-NaN fitness per generation must not increase, hall-of-fame best must bound everything offered",
+             "- best non-NaN fitness per generation must not increase, hall-of-fame best must bound everything offered; (iii) direct "
+             "HallOfFame update histories (capacity 1-3, 1-6 updates with populations of 1-6, NaN members incl. the first, ties, a "
+             "new best arriving at a full hall) with the same bound after every update",
         samples=mon["samples"],
         correspondence=dict(cases=len(cases), disagreements=len(bad)),
-        monitor=dict(runs=mon["runs"], generations=mon["generations"], violations=len(mon["viol"])),
+        monitor=dict(runs=mon["runs"], generations=mon["generations"], violations=len(mon["viol"]),
+                     hall_of_fame_histories=mon.get("hof_histories")),
         oracle_violations=len(cover_bad) + len(mon["viol"]),
     )
     rep.assumptions += [
